@@ -1115,6 +1115,7 @@ def run(ctx):
     g = gtirb_from_repo.load()
     import lookups as _lk
     _lk.failed_bulk_scenario(ctx, g, ctx.rng, 40 if ctx.quick else 800, 'not-like-builtin:failed-bulk')
+    _lk.failed_bulk_blocks(ctx, g, ctx.rng, 40 if ctx.quick else 800, 'not-like-builtin:failed-bulk-blocks')
     rng = ctx.rng
     nh, ln = (50, 60) if ctx.quick else (1000, 120)
     hists = []
